@@ -118,7 +118,7 @@ ROUND8 = {
  "C05": FLOWS8.strip(),
  "C06": "Connection churn on a TCP listener with TCP backends (32 variants): later requests are stamped like the first." + FLOWS8,
  "C07": FLOWS8.strip(),
- "C09": "Round 8: scenario clients-hang-up (a client and a dialled TCP backend hang up while loops handle what their connections carried) and the concurrent flow pass (two call flows at once, 23 pairs x 6 variants, thorough 144 pairs) under the race detector.",
+ "C09": "Round 8: scenario clients-hang-up (a client and a dialled TCP backend hang up while loops handle what their connections carried) and the concurrent flow pass (two call flows at once; quick: every flow next to the basic call x 4 variants with a second listens entry or a lazily opened connection; thorough: 144 pairs x 6 variants) under the race detector.",
  "C10": FLOWS8.strip(),
  "C11": "Round 8: the sender stalls for two hours of virtual time at a cut (direct and end to end), with read deadlines modelled on the virtual clock.",
  "C12": "Senders that pre-fill rport with a value." + FLOWS8,
